@@ -140,14 +140,16 @@ def main(argv=None):
     known = [k for k in load_known() if k.get("property") == pid]
     open_keys = {k["key"]: k for k in known if k.get("status") == "open"}
     out_lines, new_viol, known_hit = [], [], []
-    os.makedirs(os.path.join(HERE, "replays", pid), exist_ok=True)
+    scratch = os.path.realpath(os.environ.get("PMV_REPO", "/repo")) != "/repo"
+    repdir = os.path.join(HERE, ".run", "scratch_replays", pid) if scratch else os.path.join(HERE, "replays", pid)
+    os.makedirs(repdir, exist_ok=True)
     for m, lst in by_mech.items():
         e, d = lst[0]
         if m in open_keys:
             known_hit.append(m)
             out_lines.append(f"KNOWN-FINDING: property={pid} {m}: {open_keys[m].get('what', '')} ({len(lst)} cases)")
             continue
-        path = os.path.join(HERE, "replays", pid, slug(m) + ".json")
+        path = os.path.join(repdir, slug(m) + ".json")
         with open(path, "w") as f:
             json.dump({"property": pid, "mechanism": m, "tier": a.tier, "seed": a.seed, "case": e["case"],
                        "detail": d, "cases_with_this_mechanism": len(lst)}, f, indent=1)
@@ -183,7 +185,7 @@ def main(argv=None):
             "floors": floors, "below_floor": {k: list(v) for k, v in below.items()},
             "warnings_observed": {k[8:]: v for k, v in sorted(counters.items()) if k.startswith("warning:")},
             "repo_functions_executed": len(coverage),
-            "repo_functions_top": dict(sorted(coverage.items(), key=lambda kv: -kv[1])[:40]),
+            "repo_functions_top (counts capped at 200 per shard)": dict(sorted(coverage.items(), key=lambda kv: -kv[1])[:40]),
             "anchored_functions_executed": {k: v for k, v in sorted(coverage.items())
                                             if any(k.split(":")[0].endswith(a_) for a_ in getattr(mod, "ANCHORS", []))},
             "known_findings_observed": known_hit,
@@ -199,7 +201,6 @@ def main(argv=None):
         "violations": len(new_viol),
     }
     # developer runs against a scratch copy (PMV_REPO set) never touch the registered evidence
-    scratch = os.path.realpath(os.environ.get("PMV_REPO", "/repo")) != "/repo"
     evdir = os.path.join(HERE, ".run", "scratch_evidence") if scratch else os.path.join(HERE, "evidence")
     os.makedirs(evdir, exist_ok=True)
     with open(os.path.join(evdir, f"{pid}.json"), "w") as f:
